@@ -82,7 +82,7 @@ void World::build_common()
 		S.faults.p_trunc = f.getd("p_trunc"); S.faults.p_flip = f.getd("p_flip");
 		S.faults.max_delay = (uint64_t)f.geti("max_delay_us");
 		S.faults.p_redeliv = f.getd("p_redeliv"); S.faults.p_rd_newid = f.getd("p_rd_newid"); S.faults.p_rd_recase = f.getd("p_rd_recase");
-		S.faults.p_rd_altsrc = f.getd("p_rd_altsrc"); S.faults.p_rd_retype = f.getd("p_rd_retype"); S.faults.rd_max_delay = (uint64_t)f.geti("rd_max_delay_us");
+		S.faults.p_rd_altsrc = f.getd("p_rd_altsrc"); S.faults.p_rd_retype = f.getd("p_rd_retype"); S.faults.p_rd_altport = f.getd("p_rd_altport"); S.faults.rd_max_delay = (uint64_t)f.geti("rd_max_delay_us");
 	}
 	// explicit fates
 	const J &fl = plan["fates"];
@@ -96,7 +96,7 @@ void World::build_common()
 			if (e.has("replace_hex")) { ft.has_replace = true; ft.replace = unhex(e.gets("replace_hex")); }
 			if (e.has("synth")) { const J &y = e["synth"]; ft.synth_size = (int)y.geti("size"); ft.synth_seq = (int)y.geti("seq"); ft.synth_frag = (int)y.geti("frag"); ft.synth_last = (int)y.geti("last"); ft.synth_key = (uint64_t)y.geti("key"); std::string en = y.gets("enc", "T"); ft.synth_enc = en.empty() ? 'T' : en[0]; }
 			if (e.has("redeliv")) for (auto &x : e["redeliv"].a) {
-				Redeliv rd; rd.delay = (uint64_t)x.geti("delay_us"); rd.idxor = (uint16_t)x.geti("idxor"); rd.recase = (uint64_t)x.geti("recase"); rd.altsrc = x.getb("altsrc"); rd.retype = (uint16_t)x.geti("retype");
+				Redeliv rd; rd.delay = (uint64_t)x.geti("delay_us"); rd.idxor = (uint16_t)x.geti("idxor"); rd.recase = (uint64_t)x.geti("recase"); rd.altsrc = x.getb("altsrc"); rd.altport = x.getb("altport"); rd.retype = (uint16_t)x.geti("retype");
 				ft.redeliv.push_back(rd);
 			}
 			std::string key = (e.has("from") ? e.gets("from") : std::string("#") + std::to_string(e.geti("from_id", -1))) + ">" + (e.has("to") ? e.gets("to") : std::string("#") + std::to_string(e.geti("to_id", -1))) + "#" + std::to_string(e.geti("n"));
@@ -142,6 +142,31 @@ Bytes World::make_packet(const J &op)
 		else if (shape == "short_iplen") { size_t l = (len - 4) / 2; p[6] = (uint8_t)(l >> 8); p[7] = (uint8_t)l; }
 		else if (shape == "long_iplen") { p[6] = 0xff; p[7] = 0xff; }
 		else if (shape == "noip") for (size_t i = 4; i < 20; i++) p[i] = (uint8_t)(splitmix64(ser * 7919 + i) >> 13);
+	}
+	if (body == "nested" && len >= 80) {
+		// an incompressible frame that carries complete zlib streams (an already compressed transfer, a tunnel in a tunnel).  With
+		// "align" = F every stream is F bytes long and starts at k*F-7, i.e. exactly where the k-th F-byte slice of compress2(frame)
+		// begins (2-byte zlib header + 5-byte stored-block header): a receiver that loses the first slice holds a buffer that starts
+		// with a complete, valid zlib stream.
+		for (size_t i = 24; i < len; i++) p[i] = (uint8_t)(splitmix64(ser * 1000003 + i / 8) >> (8 * (i % 8)));
+		size_t F = 0;
+		if (op.gets("align") == "auto") { UserView v; int uid = clients.empty() ? 0 : std::max(0, clients[0].userid); if (peek_user(uid, v)) F = (size_t)v.fragsize; }
+		else F = (size_t)op.geti("align", 0);
+		size_t unit = F >= 16 && F <= 4000 ? F : 16 + (size_t)(ser % 48);
+		size_t pos = F >= 16 && F <= 4000 ? F - 7 : 40;
+		while (pos < 40) pos += unit;
+		uint64_t k = 0;
+		while (pos + unit <= len) {
+			Bytes z;
+			for (size_t n = unit - 11; n + 8 > unit - 11 && n > 0; n--) {
+				Bytes x(n); for (size_t i = 0; i < n; i++) x[i] = (uint8_t)(splitmix64(ser * 7777777 + (++k)) >> 17);
+				z = z_compress(x);
+				if (z.size() <= unit) break;
+			}
+			if (z.empty() || z.size() > unit) break;
+			memcpy(&p[pos], z.data(), z.size());
+			pos += unit;
+		}
 	}
 	// serial for uniqueness / attribution
 	if (len >= 36) for (int i = 0; i < 8; i++) p[24 + i] = (uint8_t)(ser >> (8 * (7 - i)));
@@ -314,7 +339,7 @@ J World::fate_json(const std::pair<int, uint64_t> &key, const Fate &f)
 	if (f.synth_size) { J y = J::obj(); y.set("size", f.synth_size); y.set("seq", f.synth_seq); y.set("frag", f.synth_frag); y.set("last", f.synth_last); y.set("key", (long long)f.synth_key); y.set("enc", std::string(1, f.synth_enc)); o.set("synth", y); }
 	if (!f.redeliv.empty()) {
 		J a = J::arr();
-		for (auto &r : f.redeliv) { J x = J::obj(); x.set("delay_us", (long long)r.delay); if (r.idxor) x.set("idxor", (int)r.idxor); if (r.recase) x.set("recase", (long long)r.recase); if (r.altsrc) x.set("altsrc", true); if (r.retype) x.set("retype", (int)r.retype); a.push(x); }
+		for (auto &r : f.redeliv) { J x = J::obj(); x.set("delay_us", (long long)r.delay); if (r.idxor) x.set("idxor", (int)r.idxor); if (r.recase) x.set("recase", (long long)r.recase); if (r.altsrc) x.set("altsrc", true); if (r.altport) x.set("altport", true); if (r.retype) x.set("retype", (int)r.retype); a.push(x); }
 		o.set("redeliv", a);
 	}
 	return o;
